@@ -39,7 +39,7 @@ VARIABLES cfg,      \* configuration of the running store
           closed,   \* Close has been called: the background poller is gone
           ini,      \* construction in progress: [tried, missing, wait, wake, deadline, flush]
           poll,     \* Nil | [snap, todo, upd (Nil | Del | version), failed, waiters, leader, act]
-          lk,       \* [Names -> Nil | [leader, members, until, dead]] lookup flights (until/dead: the leader's context)
+          lk,       \* [Names -> Nil | [leader, members, dead]] lookup flights (dead: the leader's context has ended)
           rq,       \* [Names -> Nil | [kind, old, by]]              requests in flight at the service client
           call,     \* [Callers -> Nil | [kind, name, own, cancelled, start]]
           now,
@@ -191,7 +191,7 @@ Refresh(c) ==
                    todo |-> Known(m), upd |-> [n \in Names |-> Nil], failed |-> FALSE,
                    waiters |-> {c}, leader |-> c, act |-> [n \in Names |-> {svc[n].ver}]]
      ELSE poll' = [poll EXCEPT !.waiters = @ \cup {c}]
-  /\ call' = IF c \in Callers THEN [call EXCEPT ![c] = [kind |-> "refresh", name |-> "", own |-> Nil, cancelled |-> FALSE, start |-> now, fallback |-> FALSE]] ELSE call
+  /\ call' = IF c \in Callers THEN [call EXCEPT ![c] = [kind |-> "refresh", name |-> "", own |-> Nil, cancelled |-> FALSE, expired |-> FALSE, start |-> now, fallback |-> FALSE]] ELSE call
   /\ out' = Event("refresh", [caller |-> c, started |-> (poll = Nil)])
   /\ UNCHANGED <<cfg, svc, m, handles, cache, phase, closed, ini, lk, rq, now, hist>>
 
@@ -263,7 +263,9 @@ Read(n) ==
   /\ UNCHANGED <<cfg, svc, handles, cache, phase, closed, ini, poll, lk, rq, call, now, hist>>
 
 (* --- lookups (C16) ----------------------------------------------------------------------------- *)
-CtxAlive(k) == ~call[k].cancelled /\ now < call[k].own
+\* A context ends when its deadline timer fires (CtxExpire) or it is cancelled; timers due at the same instant
+\* fire in any order, so "the deadline has been reached" and "the context is done" are different moments.
+CtxAlive(k) == ~call[k].cancelled /\ ~call[k].expired
 
 \* LookupSecret(ctx, n) by caller k; deadline: the caller's own, or Nil (then the five-minute fallback applies)
 Lookup(k, n, deadline) ==
@@ -275,7 +277,7 @@ Lookup(k, n, deadline) ==
      ELSE IF ~cfg.allowLookup
      THEN /\ out' = Event("ret", [call |-> "lookup", caller |-> k, res |-> "err"])
           /\ UNCHANGED <<handles, call, lk, rq>>
-     ELSE /\ call' = [call EXCEPT ![k] = [kind |-> "lookup", name |-> n, cancelled |-> FALSE, start |-> now,
+     ELSE /\ call' = [call EXCEPT ![k] = [kind |-> "lookup", name |-> n, cancelled |-> FALSE, expired |-> FALSE, start |-> now,
                                           fallback |-> (deadline = Nil),
                                           own |-> IF deadline = Nil THEN now + 300000 ELSE deadline]]
           /\ out' = Event("lookup", [caller |-> k, name |-> n])
@@ -286,7 +288,7 @@ InFlight(k) == \E n \in {x \in Names : lk[x] # Nil} : k \in lk[n].members
 Waiting(k) == call[k] # Nil /\ call[k].kind = "lookup" /\ ~InFlight(k)
 
 \* enter the flight for the name: lead it (one request, governed by the leader's context) or join it
-NewFlight(k) == [leader |-> k, members |-> {k}, until |-> call[k].own, dead |-> call[k].cancelled]
+NewFlight(k) == [leader |-> k, members |-> {k}, dead |-> FALSE]
 LookupEnter(k) ==
   /\ Waiting(k) /\ CtxAlive(k)
   /\ LET n == call[k].name IN
@@ -299,7 +301,7 @@ LookupEnter(k) ==
           /\ UNCHANGED rq
   /\ UNCHANGED <<cfg, svc, m, handles, cache, phase, closed, ini, poll, call, now, hist>>
 
-FlightCtxDone(n) == lk[n].dead \/ now >= lk[n].until
+FlightCtxDone(n) == lk[n].dead
 
 \* the request of a lookup flight completes: value (install, flush, every member still waiting gets a
 \* handle), a service error (reported to every member, nothing installed, no retry), or the leader's
@@ -332,6 +334,14 @@ LookupGiveUp(k) ==
   /\ out' = Event("ret", [call |-> "lookup", caller |-> k, res |-> "ctx"])
   /\ UNCHANGED <<cfg, svc, m, handles, cache, phase, closed, ini, poll, rq, now, hist>>
 
+\* the deadline timer of caller k's context fires (its own deadline, or the five-minute fallback)
+CtxExpire(k) ==
+  /\ call[k] # Nil /\ call[k].kind = "lookup" /\ ~call[k].expired /\ now >= call[k].own
+  /\ call' = [call EXCEPT ![k].expired = TRUE]
+  /\ lk' = [n \in Names |-> IF lk[n] # Nil THEN (IF lk[n].leader = k THEN [lk[n] EXCEPT !.dead = TRUE] ELSE lk[n]) ELSE Nil]
+  /\ out' = Event("ctxexpire", [caller |-> k])
+  /\ UNCHANGED <<cfg, svc, m, handles, cache, phase, closed, ini, poll, rq, now, hist>>
+
 Cancel(k) ==
   /\ call[k] # Nil /\ call[k].kind = "lookup" /\ ~call[k].cancelled
   /\ call' = [call EXCEPT ![k].cancelled = TRUE]
@@ -359,7 +369,6 @@ Timers ==
   (IF phase = "init" /\ ini.wake # Nil THEN {ini.wake} ELSE {})
   \cup (IF phase = "init" /\ ini.deadline # Nil /\ ini.deadline > now THEN {ini.deadline} ELSE {})
   \cup {call[k].own : k \in {j \in Callers : call[j] # Nil /\ call[j].kind = "lookup" /\ call[j].own > now}}
-  \cup {lk[n].until : n \in {x \in Names : lk[x] # Nil /\ lk[x].until > now}}
 
 \* Code steps take no (virtual) time: the clock does not move while one is due.
 Urgent ==
@@ -368,6 +377,7 @@ Urgent ==
   \/ (phase = "init" /\ InitCtxDone /\ ReqsBy("init") # {})         \* the client honours the context
   \/ (poll # Nil /\ NoPollReq)                                                                     \* next request / end of round
   \/ (\E k \in Callers : Waiting(k))
+  \/ (\E k \in {j \in Callers : call[j] # Nil} : call[k].kind = "lookup" /\ ~call[k].expired /\ now >= call[k].own)   \* a timer is due
   \/ (\E k \in {j \in Callers : call[j] # Nil} : call[k].kind = "lookup" /\ ~CtxAlive(k))   \* a caller gives up at once
   \/ (\E n \in ReqsBy("lookup") : FlightCtxDone(n))                                         \* the client honours the context
 
